@@ -18,7 +18,7 @@
 EXTENDS Integers, Sequences, FiniteSets, TLC, Json
 
 CONSTANTS Cats, Prios, Trigs, Muteds, Kinds, Elses, Labels, Flds, Corrects, Valences,
-          Scores, Unscoreds, SuppU, MaxFb, MaxSupp, Variant
+          Scores, Unscoreds, Msgs, SuppU, MaxFb, MaxSupp, Variant
 
 VARIABLES fbs, supp, result
 vars == <<fbs, supp, result>>
@@ -112,7 +112,8 @@ Merge(acc, F, S, i) ==
             ELSE IF ~f.trig \/ f.muted THEN acc1
             ELSE IF f.kind = "Compliment" THEN acc1
             ELSE [acc1 EXCEPT !.correct = (f.correct = "T") /\ @,
-                              !.shown = IF @ = 0 THEN i ELSE @]
+                              !.shown = IF @ = 0 /\ ~(Variant = "blank_message_skipped" /\ f.msg = "empty")
+                                        THEN i ELSE @]   \* claimed whatever the message text is (msg = "empty": '')
 RECURSIVE Fold(_, _, _, _, _)
 Fold(acc, F, S, order, k) == IF k > Len(order) THEN acc
                              ELSE Fold(Merge(acc, F, S, order[k]), F, S, order, k + 1)
@@ -133,12 +134,13 @@ MutResolve(F, S) ==
            LET r == ImplResolve(F, S) IN
            IF r.shown = 0 THEN r ELSE
            [r EXCEPT !.score = SumC([i \in 1..Len(F) |-> IF F[i].muted THEN [F[i] EXCEPT !.score = "none"] ELSE F[i]], S, 1)]
+      [] Variant = "blank_message_skipped" -> ImplResolve(F, S)   \* the deviation sits in Merge
       [] OTHER -> ImplResolve(F, S)
 
 (* ---------- state machine ---------- *)
 FB == {f \in [cat : Cats, prio : Prios, trig : Trigs, muted : Muteds, kind : Kinds, els : Elses,
               label : Labels, flds : Flds, correct : Corrects, valence : Valences,
-              score : Scores, unscored : Unscoreds] : f.trig => ~f.els}
+              score : Scores, unscored : Unscoreds, msg : Msgs] : f.trig => ~f.els}
 
 Init == fbs = <<>> /\ supp = {} /\ result = None
 
